@@ -470,3 +470,51 @@ Proof.
         cbn in X. rewrite (Hw1 eq_refl) in Hs. destruct X as [(_ & X & _)|(X & _)]; [rewrite Hs in X; discriminate X|lia].
     + exfalso. apply memt_In in Sq. unfold take_w in M. rewrite Sq in M. discriminate M.
 Qed.
+
+Lemma RI2_ustep s t s' : UInv (ucore_of s) -> RI s -> RI2 s -> ustep true s t = Some s' -> RI2 s'.
+Proof.
+  intros UI I I2 H. unfold ustep in H.
+  destruct (u_w s t) as [| |b] eqn:Ew; [|discriminate|].
+  all: destruct (u_pc s t) eqn:Epc.
+  all: try (destruct (u_prog s t) as [|[] ?]; [discriminate|..]).
+  all: cbn [timedout] in H.
+  all: repeat match type of H with
+       | context [if ?b then _ else _] => destruct b eqn:?
+       | context [match u_slot ?s with _ => _ end] => destruct (u_slot s) eqn:?
+       end.
+  all: inversion H; subst; clear H.
+  all: let sl := pick_sl in
+       unfold ret_send, ret_recv, deposit, take in *;
+       let ms := pick_ms in let mr := pick_mr in
+       unfold wait_s, wait_r, sleep, finish, goto, lock, unlock in *;
+       eapply (RI2_step s t _ ms mr sl); [exact I | exact UI | exact I2 | rewrite Ew; discriminate | projs; reflexivity | ..].
+  (* wake state of the others *)
+  all: try solve [intros t0 Hne; projs; unfold upd; rewrite ?(proj2 (Nat.eqb_neq t0 t) Hne);
+                  cbn [take_w app]; rewrite ?app_nil_r, ?memt_app; cbn [memt existsb];
+                  repeat match goal with |- context [memt ?a ?b] => destruct (memt a b) end; reflexivity].
+  (* wake state of t *)
+  all: try solve [projs; unfold upd; rewrite ?Nat.eqb_refl, ?Ew;
+                  repeat match goal with |- context [memt ?a ?b] => destruct (memt a b) end;
+                  split; intros X; try discriminate; try congruence; exfalso; apply X; reflexivity].
+  (* rw *)
+  all: try solve [projs; rewrite ?Epc; cbn [regR b2n]; cbn; lia].
+  (* sleeping in loop 1: no receiver or the slot is occupied *)
+  all: try solve [intros X Y; try discriminate X; try discriminate Y; projs;
+                  match goal with E : (_ =? 0) || is_some _ = true |- _ =>
+                    apply orb_prop in E; destruct E as [E|E];
+                    [apply Z.eqb_eq in E; left; lia | right; destruct (u_slot s); [discriminate|discriminate E]] end].
+  all: try solve [intros X; try discriminate X; projs; reflexivity].
+  (* a notified loop-1 sender goes on to the loop head *)
+  all: try solve [rewrite ?Epc, ?Ew; cbn; intros; try discriminate; try reflexivity; destruct b; discriminate].
+  (* a thread at the loop head / the deposit *)
+  all: try solve [rewrite ?Epc; cbn; intros X; try discriminate X;
+                  first [ left; reflexivity
+                        | right; projs; intros (A & B & C);
+                          first [ discriminate | congruence
+                                | match goal with E : (_ =? 0) || is_some _ = true |- _ =>
+                                    apply orb_prop in E; destruct E as [E|E];
+                                    [apply Z.eqb_eq in E; lia | rewrite B in E; discriminate E] end ] ]].
+  (* monotonicity for steps that wake no sender *)
+  all: try solve [intros X; try discriminate X; projs; repeat split; intros; try assumption; try lia; try congruence; try discriminate].
+  all: match goal with |- ?G => idtac "G" G end.
+Abort.
